@@ -340,7 +340,7 @@ impl ValuePiece {
         file.seek_from_start(self.offset)?;
         file.write_piece_size(self.size)?;
         file.write_value_len(value_len)?;
-        file.write_all_small(value)?;
+        file.write_all(value)?;
         file.write_zero_to_offset(self.offset + self.size)?;
         //
         Ok(())
